@@ -11,7 +11,7 @@
 //! `cli::execute` are the real ones, linked from the current /repo tree) with the case directory as
 //! cwd and, unless real_cargo, a stub `cargo` first on PATH whose exit status/output is scripted
 //! per (file marker, test function) and which logs every invocation. It prints one JSON line:
-//!   {"id","exit","stdout","stderr","log":[..],"harness":{fn:{"test_attrs":n,"selected_is_test":b,
+//!   {"id","exit","stdout","stderr","log":[..],"harness":{fn:{"test_attrs":n,"marked":[fn..],"selected_is_test":b,
 //!    "has_main":b,"calls_selected":b}}}
 //! `vharness run c16 discover` instead calls the public `discover_test_files` /
 //! `discover_tests_and_fixtures` directly and prints what they return.
@@ -112,6 +112,7 @@ fn inspect_harness(main_rs: &str, selected: &str) -> Value {
     let t = rust_tokens(main_rs);
     let is = |i: usize, s: &str| t.get(i).map(|x| x == s).unwrap_or(false);
     let mut test_attrs = 0;
+    let mut marked: Vec<String> = Vec::new();
     let mut selected_is_test = false;
     let mut defines_selected = false;
     let mut calls_selected = false;
@@ -131,6 +132,11 @@ fn inspect_harness(main_rs: &str, selected: &str) -> Value {
             while j < t.len() && !is(j, "fn") && j < attr_end.unwrap() + 24 {
                 j += 1;
             }
+            if is(j, "fn") {
+                if let Some(name) = t.get(j + 1) {
+                    marked.push(name.clone());
+                }
+            }
             if is(j, "fn") && is(j + 1, selected) && is(j + 2, "(") {
                 selected_is_test = true;
             }
@@ -146,7 +152,7 @@ fn inspect_harness(main_rs: &str, selected: &str) -> Value {
             }
         }
     }
-    json!({"test_attrs": test_attrs, "selected_is_test": selected_is_test, "has_main": has_main,
+    json!({"test_attrs": test_attrs, "marked": marked, "selected_is_test": selected_is_test, "has_main": has_main,
            "calls_selected": calls_selected, "defines_selected": defines_selected})
 }
 
